@@ -40,7 +40,7 @@ use chk_sql::sqlmc::db::{self, Database};
 use chk_sql::sqlmc::engine::{self, Layout, QueryResult, TextEncoding};
 use chk_sql::sqlmc::grammar::{self, GenQuery, QueryFlags, Tier};
 use chk_sql::sqlmc::reference::{self, RefOutcome};
-use chk_sql::sqlmc::value::show_rows;
+use chk_sql::sqlmc::value::{Value, show_rows};
 use datafusion::physical_plan::displayable;
 use datafusion::prelude::{ParquetReadOptions, SessionConfig, SessionContext};
 use mc_core::serde_json::{Value as Json, json};
@@ -62,7 +62,9 @@ enum TableLayout {
     /// Row `i` goes to Parquet file `i % files`; every file is written with row groups of
     /// at most `row_group_rows` rows (0 = one row group).  Files that receive no row are
     /// not written; a table without rows is an empty directory (schema given explicitly).
-    Parquet { files: usize, row_group_rows: usize },
+    /// `sorted`: the rows of every file are sorted by the table's first column (ASC NULLS LAST)
+    /// and the table is registered with that file sort order declared.
+    Parquet { files: usize, row_group_rows: usize, sorted: bool },
 }
 
 /// One fully resolved configuration: what `make_ctx` needs.
@@ -86,8 +88,8 @@ struct Dev {
     /// the option acts at run time without (necessarily) changing the plan text: the
     /// deviation counts as non-trivial for a query whose plan contains this text
     runtime_if_plan_contains: Option<&'static str>,
-    /// only meaningful on Parquet-backed tables (applied to the `files` centre only)
-    files_only: bool,
+    /// applied to this centre only (file / Parquet switches: `files`)
+    only: Option<&'static str>,
 }
 
 const E: &str = "datafusion.execution.";
@@ -100,7 +102,7 @@ fn dev(option: &'static str, prefix: &str, value: &str) -> Dev {
         layout: None,
         settings: vec![(format!("{prefix}{option}"), value.to_string())],
         runtime_if_plan_contains: None,
-        files_only: false,
+        only: None,
     }
 }
 
@@ -122,16 +124,16 @@ fn menu() -> Vec<Dev> {
     }
     // table layout: partitions {1,2,3} x batches {whole, 1-row, 2-row}
     for (p, b) in [(1usize, 1usize), (1, 2), (2, 0), (2, 1), (3, 0), (3, 1), (3, 2)] {
-        m.push(Dev { option: "layout", name: format!("layout=mem(p{p},b{b})"), layout: Some(mem(p, b)), settings: vec![], runtime_if_plan_contains: Some(""), files_only: false });
+        m.push(Dev { option: "layout", name: format!("layout=mem(p{p},b{b})"), layout: Some(mem(p, b)), settings: vec![], runtime_if_plan_contains: Some(""), only: None });
     }
-    for (f, g) in [(1usize, 0usize), (2, 1), (3, 0)] {
+    for (f, g, sorted) in [(1usize, 0usize, false), (2, 1, false), (2, 1, true), (3, 0, true)] {
         m.push(Dev {
             option: "layout",
-            name: format!("layout=parquet(f{f},g{g})"),
-            layout: Some(TableLayout::Parquet { files: f, row_group_rows: g }),
+            name: format!("layout=parquet(f{f},g{g}{})", if sorted { ",sorted" } else { "" }),
+            layout: Some(TableLayout::Parquet { files: f, row_group_rows: g, sorted }),
             settings: vec![],
             runtime_if_plan_contains: Some(""),
-            files_only: false,
+            only: None,
         });
     }
     m.push(dev("coalesce_batches", E, "false"));
@@ -142,6 +144,15 @@ fn menu() -> Vec<Dev> {
     m.push(dev("enable_piecewise_merge_join", O, "true"));
     m.push(dev("hash_join_single_partition_threshold", O, "0"));
     m.push(dev("hash_join_single_partition_threshold_rows", O, "0"));
+    // the `parallel` centre sets both thresholds to 0 (every hash join Partitioned): there the deviation is back to the defaults
+    m.push(Dev {
+        option: "hash_join_single_partition_threshold",
+        name: "hash_join_single_partition_threshold{,_rows}=default".into(),
+        layout: None,
+        settings: vec![(format!("{O}hash_join_single_partition_threshold"), "4194304".into()), (format!("{O}hash_join_single_partition_threshold_rows"), "131072".into())],
+        runtime_if_plan_contains: None,
+        only: Some("parallel"),
+    });
     // perfect (array-map) hash join is used unless BOTH thresholds refuse it: one bundled switch
     m.push(Dev {
         option: "perfect_hash_join",
@@ -149,7 +160,7 @@ fn menu() -> Vec<Dev> {
         layout: None,
         settings: vec![(format!("{E}perfect_hash_join_small_build_threshold"), "0".into()), (format!("{E}perfect_hash_join_min_key_density"), "1000000".into())],
         runtime_if_plan_contains: Some("HashJoinExec"),
-        files_only: false,
+        only: None,
     });
     for o in ["enable_dynamic_filter_pushdown", "enable_topk_dynamic_filter_pushdown", "enable_join_dynamic_filter_pushdown", "enable_aggregate_dynamic_filter_pushdown"] {
         m.push(dev(o, O, "false"));
@@ -215,7 +226,7 @@ fn menu() -> Vec<Dev> {
     // file-backed tables only
     let mut f = |option: &'static str, prefix: &str, value: &str, runtime: bool| {
         let mut d = dev(option, prefix, value);
-        d.files_only = true;
+        d.only = Some("files");
         if runtime {
             d.runtime_if_plan_contains = Some("DataSourceExec");
         }
@@ -225,7 +236,7 @@ fn menu() -> Vec<Dev> {
     f("enable_file_stream_work_stealing", E, "false", true);
     f("split_file_groups_by_statistics", E, "true", false);
     f("repartition_file_scans", O, "false", false);
-    f("repartition_file_min_size", O, "0", false);
+    f("repartition_file_min_size", O, "10485760", false);
     f("preserve_file_partitions", O, "1", false);
     let p = "datafusion.execution.parquet.";
     f("pushdown_filters", p, "true", true);
@@ -237,6 +248,30 @@ fn menu() -> Vec<Dev> {
     f("schema_force_view_types", p, "false", false);
     m
 }
+
+/// Options of the general menu that are also deviated from the `files` centre (those that act on /
+/// through a file scan: scan shape, dynamic filters, sort pushdown / existing orderings, join algorithm).
+const FILES_CENTRE_OPTIONS: [&str; 19] = [
+    "target_partitions",
+    "batch_size",
+    "enable_dynamic_filter_pushdown",
+    "enable_topk_dynamic_filter_pushdown",
+    "enable_join_dynamic_filter_pushdown",
+    "enable_aggregate_dynamic_filter_pushdown",
+    "enable_sort_pushdown",
+    "prefer_existing_sort",
+    "sort_pushdown_buffer_capacity",
+    "repartition_sorts",
+    "prefer_hash_join",
+    "enable_round_robin_repartition",
+    "hash_join_inlist_pushdown_max_size",
+    "hash_join_inlist_pushdown_max_distinct_values",
+    "hash_join_buffering_capacity",
+    "use_statistics_registry",
+    "enable_physical_uncorrelated_scalar_subquery",
+    "enable_topk_aggregation",
+    "filter_null_join_keys",
+];
 
 /// A centre of the deviation-bounded exploration.
 #[derive(Clone, Debug)]
@@ -253,13 +288,18 @@ fn centres() -> Vec<Centre> {
         Centre {
             name: "parallel",
             layout: mem(2, 1),
-            settings: vec![(format!("{E}target_partitions"), "3".into()), (format!("{E}batch_size"), "2".into())],
+            settings: vec![
+                (format!("{E}target_partitions"), "3".into()),
+                (format!("{E}batch_size"), "2".into()),
+                (format!("{O}hash_join_single_partition_threshold"), "0".into()),
+                (format!("{O}hash_join_single_partition_threshold_rows"), "0".into()),
+            ],
             files: false,
         },
         Centre {
             name: "files",
-            layout: TableLayout::Parquet { files: 2, row_group_rows: 1 },
-            settings: vec![(format!("{E}target_partitions"), "2".into())],
+            layout: TableLayout::Parquet { files: 2, row_group_rows: 1, sorted: true },
+            settings: vec![(format!("{E}target_partitions"), "2".into()), (format!("{O}repartition_file_min_size"), "0".into())],
             files: true,
         },
     ]
@@ -301,7 +341,22 @@ fn configurations(thorough: bool) -> (Vec<Centre>, Vec<Dev>, Vec<Config>) {
     for c in 0..cs.len() {
         out.push(build_config(&cs, &m, c, &[]));
     }
-    let applicable = |c: &Centre, d: &Dev| !d.files_only || c.files;
+    // the `files` centre takes the file/Parquet switches plus the options that shape the scan
+    // (target_partitions, batch_size, the Parquet layouts); the other centres the rest of the menu
+    let applicable = |c: &Centre, d: &Dev| {
+        if let Some(only) = d.only {
+            return only == c.name;
+        }
+        // a deviation that only repeats the centre's own values is not a deviation
+        if d.layout.as_ref().map(|l| *l == c.layout).unwrap_or(true) && d.settings.iter().all(|kv| c.settings.contains(kv)) {
+            return false;
+        }
+        if c.files {
+            matches!(d.layout, Some(TableLayout::Parquet { .. })) || FILES_CENTRE_OPTIONS.contains(&d.option)
+        } else {
+            true
+        }
+    };
     for (ci, c) in cs.iter().enumerate() {
         for (di, d) in m.iter().enumerate() {
             if applicable(c, d) {
@@ -311,9 +366,6 @@ fn configurations(thorough: bool) -> (Vec<Centre>, Vec<Dev>, Vec<Config>) {
     }
     if thorough {
         for (ci, c) in cs.iter().enumerate() {
-            if c.files {
-                continue;
-            }
             for i in 0..m.len() {
                 for j in i + 1..m.len() {
                     if m[i].option == m[j].option || !applicable(c, &m[i]) || !applicable(c, &m[j]) {
@@ -351,13 +403,28 @@ fn parquet_bytes(batch: &RecordBatch, row_group_rows: usize) -> Result<Vec<u8>, 
     Ok(buf)
 }
 
+/// ASC NULLS LAST on cells of one column (one value class per column; no NaN in the domains).
+fn asc_nulls_last(x: &Value, y: &Value) -> std::cmp::Ordering {
+    use std::cmp::Ordering::*;
+    match (x, y) {
+        (Value::Null, Value::Null) => Equal,
+        (Value::Null, _) => Greater,
+        (_, Value::Null) => Less,
+        (Value::Int(a), Value::Int(b)) => a.cmp(b),
+        (Value::Float(a), Value::Float(b)) => a.partial_cmp(b).unwrap_or(Equal),
+        (Value::Text(a), Value::Text(b)) => a.as_bytes().cmp(b.as_bytes()),
+        (Value::Bool(a), Value::Bool(b)) => a.cmp(b),
+        _ => Equal,
+    }
+}
+
 /// A fresh context holding `dbv` in the layout / configuration of `spec`.
 fn make_ctx(dbv: &Database, spec: &ConfigSpec) -> Result<SessionContext, String> {
     let cfg = session_config(spec)?;
     let ctx = SessionContext::new_with_config(cfg);
     match &spec.layout {
         TableLayout::Mem(l) => engine::register_database(&ctx, dbv, l, TextEncoding::View)?,
-        TableLayout::Parquet { files, row_group_rows } => {
+        TableLayout::Parquet { files, row_group_rows, sorted } => {
             let store = Arc::new(InMemory::new());
             let url = url::Url::parse("c02mem://db").unwrap();
             ctx.register_object_store(&url, store.clone());
@@ -365,16 +432,22 @@ fn make_ctx(dbv: &Database, spec: &ConfigSpec) -> Result<SessionContext, String>
                 let schema = engine::arrow_schema(t, TextEncoding::View);
                 let n = (*files).max(1);
                 for f in 0..n {
-                    let rows: Vec<&chk_sql::sqlmc::Row> = t.rows.iter().enumerate().filter(|(i, _)| i % n == f).map(|(_, r)| r).collect();
+                    let mut rows: Vec<&chk_sql::sqlmc::Row> = t.rows.iter().enumerate().filter(|(i, _)| i % n == f).map(|(_, r)| r).collect();
                     if rows.is_empty() {
                         continue;
+                    }
+                    if *sorted {
+                        rows.sort_by(|x, y| asc_nulls_last(&x[0], &y[0]));
                     }
                     let batch = engine::rows_to_batch(t, &rows, TextEncoding::View);
                     let bytes = parquet_bytes(&batch, *row_group_rows)?;
                     let path = ObjPath::from(format!("{}/part-{f}.parquet", t.name));
                     engine::block_on(store.put(&path, PutPayload::from(bytes))).map_err(|e| format!("put {path}: {e}"))?;
                 }
-                let opts = ParquetReadOptions::default().schema(schema.as_ref()).file_extension(".parquet");
+                let mut opts = ParquetReadOptions::default().schema(schema.as_ref()).file_extension(".parquet");
+                if *sorted {
+                    opts = opts.file_sort_order(vec![vec![datafusion::prelude::col(t.cols[0].0.as_str()).sort(true, false)]]);
+                }
                 engine::block_on(ctx.register_parquet(t.name.as_str(), format!("c02mem://db/{}/", t.name), opts)).map_err(|e| format!("register_parquet({}): {e}", t.name))?;
             }
         }
@@ -504,6 +577,28 @@ fn replay(v: &Json) -> Result<(), String> {
     run_case(&c)
 }
 
+/// Confirmed engine defects, keyed by root cause.  A failing case is attributed to one only if a
+/// twin run that removes exactly the suspected ingredient passes.
+///
+/// `MinMaxStatistics::new_from_files` + `is_sorted` (datafusion/datasource/src/statistics.rs), used by
+/// `is_ordering_valid_for_file_groups` (file_scan_config/sort_pushdown.rs): a file group of several
+/// individually sorted files keeps its declared `output_ordering` when max(file i) <= min(file i+1)
+/// on the *non-NULL* min/max statistics; NULLs of the sort column (which sort after max under NULLS
+/// LAST, before min under NULLS FIRST) are ignored, so `[2, NULL] ++ [2, 3]` is declared sorted.
+const CAUSE_SORTED_GROUP_NULLS: &str = "file-group-declared-sorted-by-minmax-statistics-ignoring-nulls:MinMaxStatistics::new_from_files/is_sorted";
+
+fn confirmed_root_cause(case: &Case, tables: &[String]) -> Option<&'static str> {
+    if let TableLayout::Parquet { files, row_group_rows, sorted: true } = &case.config.layout {
+        let null_in_sort_column = case.db.tables.iter().any(|t| tables.contains(&t.name) && t.rows.iter().any(|r| r[0].is_null()));
+        let mut twin = case.clone();
+        twin.config.layout = TableLayout::Parquet { files: *files, row_group_rows: *row_group_rows, sorted: false };
+        if *files > 1 && null_in_sort_column && run_case(&twin).is_ok() {
+            return Some(CAUSE_SORTED_GROUP_NULLS);
+        }
+    }
+    None
+}
+
 // ------------------------------------------------------------------ exploration
 
 #[derive(Default, Clone)]
@@ -514,10 +609,138 @@ struct OptStat {
     mismatches: u64,
 }
 
+#[derive(Clone)]
 struct Baseline {
     class: Class,
     plan: Option<String>,
     result: Result<QueryResult, String>,
+}
+
+/// Hand-written additions to the grammar subset: the shapes that the option-gated physical /
+/// logical rewrites look for (TopK aggregation, DISTINCT with a soft limit, limit pushed past a
+/// window, per-partition window top-N, TopK below a hash repartition, UNION branches merged into
+/// a filter, sorted subqueries, interleaved unions, dynamic filters from TopK / min-max / joins).
+fn extra_queries() -> Vec<GenQuery> {
+    use chk_sql::sqlmc::ast::*;
+    let (a, b) = (|| col("a"), || col("b"));
+    let nulls_last = |e: Expr, desc: bool| OrderItem { expr: e, desc, nulls_first: Some(false) };
+    let win = |f: WinFn, part: Vec<Expr>, ord: Vec<OrderItem>| Expr::Window { f, args: vec![], partition_by: part, order_by: ord, frame: None };
+    let mut out: Vec<Query> = vec![];
+    // TopK aggregation: ORDER BY min/max (direction matching) or the single group key, with LIMIT
+    out.push(Select::new(vec![item(a()), item_as(agg(AggFn::Max, b()), "m")], table("t")).group(vec![a()]).query().order(vec![nulls_last(col("m"), true)]).limit(1));
+    out.push(Select::new(vec![item(a()), item_as(agg(AggFn::Min, b()), "m")], table("t")).group(vec![a()]).query().order(vec![OrderItem::asc(col("m"))]).limit(2));
+    out.push(Select::new(vec![item(a())], table("t")).group(vec![a()]).query().order(vec![nulls_last(a(), true)]).limit(1));
+    out.push(Select::new(vec![item(col("c")), item_as(agg(AggFn::Max, a()), "m")], table("u")).group(vec![col("c")]).query().order(vec![nulls_last(col("m"), true)]).limit(2));
+    // DISTINCT / GROUP BY without aggregates under a plain LIMIT (soft limit)
+    out.push(Select::new(vec![item(a())], table("t")).distinct().query().limit(2));
+    out.push(Select::new(vec![item(a()), item(b())], table("t")).distinct().query().limit(3));
+    out.push(Select::new(vec![item(a())], table("t")).group(vec![a()]).query().limit(1));
+    // LIMIT above a ROWS-bounded window
+    out.push(
+        Select::new(vec![item(a()), item(b()), item_as(win(WinFn::RowNumber, vec![], vec![OrderItem::asc(a()), OrderItem::asc(b())]), "rn")], table("t"))
+            .query()
+            .order(vec![OrderItem::asc(a()), OrderItem::asc(b())])
+            .limit(2),
+    );
+    out.push(
+        Select::new(
+            vec![
+                item(a()),
+                item(b()),
+                item_as(
+                    Expr::Window {
+                        f: WinFn::Agg(AggFn::Sum),
+                        args: vec![b()],
+                        partition_by: vec![],
+                        order_by: vec![OrderItem::asc(a()), OrderItem::asc(b())],
+                        frame: Some(Frame { units: FrameUnits::Rows, start: Bound::Preceding(1), end: Bound::Following(1) }),
+                    },
+                    "s",
+                ),
+            ],
+            table("t"),
+        )
+        .query()
+        .order(vec![OrderItem::asc(a()), OrderItem::asc(b())])
+        .limit(2),
+    );
+    out.push(Select::new(vec![item(a()), item(b()), item_as(win(WinFn::RowNumber, vec![a()], vec![OrderItem::asc(b())]), "rn")], table("t")).query().limit(2));
+    // per-partition top-N: filter on a ranking function of a partitioned window
+    for (f, k) in [(WinFn::RowNumber, 1), (WinFn::Rank, 1), (WinFn::DenseRank, 2)] {
+        let inner = Select::new(vec![item(a()), item(b()), item_as(win(f, vec![a()], vec![OrderItem::asc(b())]), "rn")], table("t")).query();
+        out.push(Select::new(vec![item(qcol("s", "a")), item(qcol("s", "b")), item(qcol("s", "rn"))], subquery_as(inner, "s")).filter(bin(BinOp::LtEq, qcol("s", "rn"), int(k))).query());
+    }
+    // TopK whose sort key starts with the hash-partitioning key
+    out.push(
+        Select::new(vec![item(a()), item(b()), item_as(Expr::Window { f: WinFn::Agg(AggFn::Sum), args: vec![b()], partition_by: vec![a()], order_by: vec![OrderItem::asc(b())], frame: None }, "s")], table("t"))
+            .query()
+            .order(vec![OrderItem::asc(a()), OrderItem::asc(b())])
+            .limit(2),
+    );
+    out.push(
+        Select::new(
+            vec![
+                item(a()),
+                item(b()),
+                item_as(
+                    Expr::Window {
+                        f: WinFn::Agg(AggFn::Sum),
+                        args: vec![b()],
+                        partition_by: vec![a()],
+                        order_by: vec![OrderItem::asc(b())],
+                        frame: Some(Frame { units: FrameUnits::Rows, start: Bound::Preceding(1), end: Bound::CurrentRow }),
+                    },
+                    "s",
+                ),
+            ],
+            table("t"),
+        )
+        .query()
+        .order(vec![OrderItem::asc(a()), OrderItem::asc(b())])
+        .limit(2),
+    );
+    out.push(Select::new(vec![item(a()), item_as(count_star(), "n")], table("t")).group(vec![a()]).query().order(vec![OrderItem::asc(a())]).limit(2));
+    // UNION DISTINCT branches differing only by their filter
+    out.push(Select::new(vec![item(a()), item(b())], table("t")).filter(eq(a(), int(1))).query().setop(SetOp::Union, false, Select::new(vec![item(a()), item(b())], table("t")).filter(eq(b(), int(2))).query()));
+    out.push(
+        Select::new(vec![item(a())], table("t"))
+            .filter(bin(BinOp::Gt, a(), int(1)))
+            .query()
+            .setop(SetOp::Union, false, Select::new(vec![item(a())], table("t")).filter(is_null(b())).query())
+            .setop(SetOp::Union, false, Select::new(vec![item(a())], table("t")).filter(eq(b(), int(1))).query()),
+    );
+    // UNION ALL feeding an aggregation / a join (interleave vs. union + repartition)
+    {
+        let u_all = Select::new(vec![item(a())], table("t")).query().setop(SetOp::Union, true, Select::new(vec![item(a())], table("u")).query());
+        out.push(Select::new(vec![item(qcol("s", "a")), item_as(count_star(), "n")], subquery_as(u_all.clone(), "s")).group(vec![qcol("s", "a")]).query());
+        let g1 = Select::new(vec![item(a()), item_as(count_star(), "n")], table("t")).group(vec![a()]).query();
+        let g2 = Select::new(vec![item(a()), item_as(count_star(), "n")], table("u")).group(vec![a()]).query();
+        out.push(Select::new(vec![item(qcol("s", "a")), item_as(agg(AggFn::Sum, qcol("s", "n")), "n")], subquery_as(g1.setop(SetOp::Union, true, g2), "s")).group(vec![qcol("s", "a")]).query());
+    }
+    // ORDER BY inside a FROM subquery (eliminated or kept)
+    out.push(
+        Select::new(vec![item(qcol("s", "a")), item(qcol("s", "b"))], subquery_as(Select::new(vec![item(a()), item(b())], table("t")).query().order(vec![OrderItem::asc(a())]), "s"))
+            .filter(bin(BinOp::Gt, qcol("s", "b"), int(1)))
+            .query(),
+    );
+    out.push(
+        Select::new(vec![item(qcol("s", "a")), item_as(count_star(), "n")], subquery_as(Select::new(vec![item(a()), item(b())], table("t")).query().order(vec![OrderItem::desc(b())]), "s"))
+            .group(vec![qcol("s", "a")])
+            .query(),
+    );
+    // dynamic filters: TopK over a filtered scan, global min/max, selective join
+    out.push(Select::new(vec![item(a()), item(b())], table("t")).filter(bin(BinOp::GtEq, b(), int(1))).query().order(vec![nulls_last(a(), true), nulls_last(b(), true)]).limit(1));
+    out.push(Select::new(vec![item(a()), item(b())], table("t")).query().order(vec![OrderItem::asc(b()), OrderItem::asc(a())]).limit(2));
+    out.push(Select::new(vec![item_as(agg(AggFn::Min, a()), "mn"), item_as(agg(AggFn::Max, b()), "mx")], table("t")).filter(bin(BinOp::Gt, b(), int(1))).query());
+    out.push(
+        Select::new(
+            vec![item_as(qcol("t", "a"), "ta"), item_as(qcol("t", "b"), "tb"), item_as(qcol("u", "c"), "uc")],
+            join(JoinKind::Inner, table("t"), table("u"), eq(qcol("t", "a"), qcol("u", "a"))),
+        )
+        .filter(eq(qcol("u", "c"), txt("a")))
+        .query(),
+    );
+    out.iter().map(|q| grammar::analyse(12, q)).collect()
 }
 
 /// The query subset: queries the engine accepts, covering every operator tag.
@@ -536,13 +759,19 @@ fn query_subset(tier: Tier, at_least: usize) -> (Vec<GenQuery>, Vec<Json>, usize
             _ => ok.push(q),
         }
     }
-    (grammar::operator_cover(&ok, at_least), rejected, total)
+    let mut picked = grammar::operator_cover(&ok, at_least);
+    for q in extra_queries() {
+        if !picked.iter().any(|p| p.sql == q.sql) {
+            picked.push(q);
+        }
+    }
+    (picked, rejected, total)
 }
 
 fn explore(ctx: &Ctx) {
     let thorough = ctx.thorough();
     let (cs, m, configs) = configurations(thorough);
-    let (qs, rejected, total_queries) = query_subset(Tier::Quick, ctx.pick(100, 359));
+    let (qs, rejected, total_queries) = query_subset(ctx.pick(Tier::Quick, Tier::Thorough), ctx.pick(64, 150));
     let dbs: Vec<(String, Database)> = db::rich_databases();
     let mut tags: std::collections::BTreeSet<&String> = Default::default();
     for q in &qs {
@@ -565,12 +794,14 @@ fn explore(ctx: &Ctx) {
     ctx.set_extra("engine_rejected_queries", json!(rejected));
     ctx.assume("single-threaded tokio runtime per worker: the thread schedule of the run is not varied here (schedule part of C02 is the evt engine's)");
 
-    // ---- baselines: default configuration, per (database, query)
+    // ---- the centres, per (centre, database, query); centre 0 = default = the comparison baseline
     let base_spec = configs[0].spec.clone();
-    let baselines: Vec<Vec<Baseline>> = dbs
+    let centre_jobs: Vec<(usize, usize)> = (0..cs.len()).flat_map(|c| (0..dbs.len()).map(move |d| (c, d))).collect();
+    let centre_runs_flat: Vec<Vec<Baseline>> = centre_jobs
         .par_iter()
-        .map(|(_, dbv)| {
-            let sctx = make_ctx(dbv, &base_spec).expect("context");
+        .map(|&(c, di)| {
+            let dbv = &dbs[di].1;
+            let sctx = make_ctx(dbv, &configs[c].spec).expect("context");
             qs.iter()
                 .map(|q| {
                     let class = match classify(dbv, q) {
@@ -580,30 +811,37 @@ fn explore(ctx: &Ctx) {
                             Class::Ambiguous
                         }
                     };
+                    if class == Class::Ambiguous {
+                        return Baseline { class, plan: None, result: Err("not run".into()) };
+                    }
                     let r = run_query(&sctx, &q.sql);
                     Baseline { class, plan: r.plan, result: r.result }
                 })
                 .collect()
         })
         .collect();
-    for (di, b) in baselines.iter().enumerate() {
-        for (qi, x) in b.iter().enumerate() {
+    // centre_runs[centre][db][query]
+    let mut centre_runs: Vec<Vec<Vec<Baseline>>> = (0..cs.len()).map(|_| vec![]).collect();
+    for ((c, _), v) in centre_jobs.iter().zip(centre_runs_flat) {
+        centre_runs[*c].push(v);
+    }
+    let baselines = &centre_runs[0];
+    for b in baselines.iter() {
+        for x in b.iter() {
             match x.class {
                 Class::Strict => ctx.count("pairs_strict", 1),
                 Class::MayFail => ctx.count("pairs_may_fail", 1),
                 Class::Ambiguous => ctx.count("pairs_ambiguous_skipped", 1),
             }
-            if x.class == Class::Strict {
-                if let Err(e) = &x.result {
-                    // the default configuration itself fails where SQL defines an answer: C01's business; here both sides must then fail
-                    ctx.count("baseline_fails_where_defined", 1);
-                    let _ = (di, qi, e);
-                }
+            if x.class == Class::Strict && x.result.is_err() {
+                // the default configuration itself fails where SQL defines an answer: C01's business; here both sides must then fail
+                ctx.count("baseline_fails_where_defined", 1);
             }
         }
     }
 
     // ---- work items: (configuration, database), simplest configuration first
+    // (centre 0 is the baseline itself; the other centres are re-run like any configuration)
     let mut work: Vec<(usize, usize)> = vec![];
     for ci in 1..configs.len() {
         for di in 0..dbs.len() {
@@ -646,8 +884,9 @@ fn explore(ctx: &Ctx) {
                 return;
             }
         };
-        let centre_plan_source = cfg.centre; // plans are compared with the default centre's plan
-        let _ = centre_plan_source;
+        // "did the deviation do anything": plan text compared with the plan of the configuration's own
+        // centre (for a centre itself: with the default centre)
+        let plan_ref = if cfg.devs.is_empty() { &centre_runs[0][di] } else { &centre_runs[cfg.centre][di] };
         let mut st = OptStat::default();
         for (qi, q) in qs.iter().enumerate() {
             let b = &baselines[di][qi];
@@ -657,7 +896,7 @@ fn explore(ctx: &Ctx) {
             let r = run_query(&sctx, &q.sql);
             ctx.eval();
             st.evaluations += 1;
-            let plan_changed = r.plan.is_some() && r.plan != b.plan;
+            let plan_changed = r.plan.is_some() && r.plan != plan_ref[qi].plan;
             if plan_changed {
                 st.plan_changed += 1;
             }
@@ -681,7 +920,7 @@ fn explore(ctx: &Ctx) {
                             ctx.sample(json!({
                                 "sql": q.sql, "db": dbv.show(), "config": cfg.spec.name,
                                 "result": r.result.as_ref().map(|x| show_rows(&x.rows)).unwrap_or_default(),
-                                "plan_default": b.plan, "plan_config": r.plan,
+                                "plan_centre": plan_ref[qi].plan, "plan_config": r.plan,
                             }));
                         }
                         // determinism guard on a 1/64 slice: everything rebuilt from the case, same verdict
@@ -751,17 +990,26 @@ fn explore(ctx: &Ctx) {
         if owner != f.ci {
             continue; // counted with the single deviation
         }
-        let key = format!("config-dependent-result[{}]:{}", configs[owner].spec.name, f.kind);
+        let case = make_case(f.ci, f.qi, f.di);
+        let key = match confirmed_root_cause(&case, &qs[f.qi].tables) {
+            Some(k) => k.to_string(),
+            None => {
+                // unexplained: keyed by the smallest failing deviation set (whatever the centre) and the kind of disagreement
+                let oc = &configs[owner];
+                let devs = if oc.devs.is_empty() { format!("centre {}", cs[oc.centre].name) } else { oc.devs.iter().map(|d| m[*d].name.clone()).collect::<Vec<_>>().join(" + ") };
+                format!("config-dependent-result[{devs}]:{}", f.kind)
+            }
+        };
         let rank = (f.qi, f.di, f.ci);
         match by_key.get_mut(&key) {
             Some(e) => {
                 e.3 += 1;
                 if rank < e.0 {
-                    *e = (rank, f.what.clone(), make_case(f.ci, f.qi, f.di), e.3);
+                    *e = (rank, f.what.clone(), case, e.3);
                 }
             }
             None => {
-                by_key.insert(key, (rank, f.what.clone(), make_case(f.ci, f.qi, f.di), 1));
+                by_key.insert(key, (rank, f.what.clone(), case, 1));
             }
         }
     }
@@ -788,7 +1036,7 @@ fn debug_main(args: &[String]) -> bool {
         return true;
     }
     if args.iter().any(|a| a == "--list-queries") {
-        let (qs, rejected, total) = query_subset(Tier::Quick, if thorough { 359 } else { 100 });
+        let (qs, rejected, total) = query_subset(if thorough { Tier::Thorough } else { Tier::Quick }, if thorough { 150 } else { 64 });
         for q in &qs {
             println!("{}\t{}\t{}\t[{}]", q.id, q.size, q.sql, q.tags.join(" "));
         }
